@@ -1079,3 +1079,202 @@ _jobs_endtuple = jobs
 
 def jobs(tier):
     return _jobs_endtuple(tier) + [(h_tuple_begintuple, (n,), 900) for n in ((-1, 0, 2) if tier == 'quick' else (-3, -1, 0, 1, 2, 3))]
+
+
+# ------------------------------------------------------------------------------------------------ records of the same kind share one type; absent fields are None
+def _cstring(m, name, text):
+    arr = z3.K(z3.BitVecSort(64), z3.BitVecVal(0, 8))
+    for i, ch in enumerate(text.encode()):
+        arr = z3.Store(arr, BV(i), z3.BitVecVal(ch, 8))
+    return m.array(name, ('i', 8), len(text) + 1, const=True, arr=arr)
+
+
+def _read_cstring(mem, p):
+    cs = [(g, q) for g, q in ptr_cases(p) if q.obj is not None]
+    if len(cs) != 1:
+        return None
+    o, off = mem.o[cs[0][1].obj], cs[0][1].off
+    out = []
+    for j in range(64):
+        if hasattr(o, 'cells'):
+            c = o.cells.get(off + j)
+            v = z3.simplify(c[0]) if c else None
+        else:
+            v = z3.simplify(z3.Select(o.arr, z3.simplify(off + j)))
+        if v is None or not z3.is_bv_value(v):
+            return None
+        if v.as_long() == 0:
+            break
+        out.append(v.as_long())
+    return bytes(out).decode('latin1')
+
+
+def cstring_stubs():
+    from .mnode import _read_string
+
+    def s_string_from_cstr(eng, fr, ins, st, name, argv):
+        """std::string(const char*, alloc): a short concrete text becomes a real SSO string"""
+        this, src = argv[0], argv[1]
+        t = _read_cstring(st.mem, src)
+        if t is None or len(t) > 15:
+            raise Unsupported('std::string from a C string that is not a short concrete text')
+        o = st.mem.o[this.obj]
+        o.cells[this.off] = (Ptr(this.obj, this.off + 16), 8)
+        o.cells[this.off + 8] = (BV(len(t)), 8)
+        for j, ch in enumerate(t.encode() + b'\0'):
+            o.cells[this.off + 16 + j] = (z3.BitVecVal(ch, 8), 1)
+        for j in range(len(t) + 1, 16):
+            o.cells[this.off + 16 + j] = (z3.BitVecVal(0, 8), 1)
+        return None
+
+    def s_compare_cstr(eng, fr, ins, st, name, argv):
+        a, b = _read_string(st.mem, argv[0]), _read_cstring(st.mem, argv[1])
+        if a is None or b is None:
+            raise Unsupported('std::string::compare(const char*) on text that is not concrete')
+        return z3.BitVecVal((a > b) - (a < b), 32)
+    return {'_ZNSt7__cxx1112basic_stringIcSt11char_traitsIcESaIcEEC1EPKcRKS3_': s_string_from_cstr, '_ZNSt7__cxx1112basic_stringIcSt11char_traitsIcESaIcEEC2EPKcRKS3_': s_string_from_cstr,
+            '_ZNKSt7__cxx1112basic_stringIcSt11char_traitsIcESaIcEE7compareEPKc': s_compare_cstr}
+
+
+@guard
+def h_record_field(names, key, nexttotry, length):
+    """RecordBuilder::field_check(key) in an open record with no field builder active, from any position of the key-search cursor: a key the
+    record type already has selects that field (whatever the cursor) and adds nothing; a new key becomes a new last field whose builder
+    already holds one None per closed record - so that earlier records read None for it - and the key is stored under its own text"""
+    from .cpp01 import struct_of
+    from .mnode import _string_cells, _read_string, string_stubs
+    names = tuple(names)
+    k = len(names)
+    slots, nslots = builder_slots()
+    mod = module_of(RB)
+    fo, sz, al, fields = mod.types.struct_layout(struct_of(mod, '_ZN7awkward13RecordBuilder9endrecordEv'))
+    stubs = dict(COMMON_STUBS)
+    stubs.update(_child_stubs(slots))
+
+    class _NC:          # string_stubs only needs an object to hang on
+        pass
+    stubs.update(string_stubs(_NC()))
+    stubs.update(cstring_stubs())
+    m = MCtx([RB, UB, OB, GB, 'src/libawkward/builder/ArrayBuilderOptions.cpp', 'src/libawkward/kernel-dispatch.cpp'], unwind=max(k, length) + 12, stubs=stubs)
+    m.record('fakevt', {8 * j: (Ptr(('func', 'vf$slot%d' % j), 0), 8) for j in range(nslots)}, const=True)
+    kc, sc, pc_ = {}, {}, {}
+    for i, nm in enumerate(names):
+        m.record('kid%d' % i, {0: (Ptr('fakevt', 0), 8), 8: (NULL, 8), 16: (NULL, 8), 32: (BV(length), 8)})
+        kc[16 * i] = (Ptr('kid%d' % i, 0), 8); kc[16 * i + 8] = (NULL, 8)
+        _string_cells(sc, 32 * i, 'keysbuf', nm)
+        pc_[8 * i] = (NULL, 8)
+    m.record('kidsbuf', kc); m.record('keysbuf', sc); m.record('ptrsbuf', pc_)
+    m.record('ctrl', {0: (NULL, 8), 8: (z3.BitVecVal(1, 32), 4), 12: (z3.BitVecVal(1, 32), 4)})
+    keyp = _cstring(m, 'keytext', key)
+    st0 = State({}, m.mem, z3.BoolVal(True))
+    vt = m.eng.global_ptr(st0, '@_ZTVN7awkward13RecordBuilderE', mod)
+
+    def vec(buf, nbytes):
+        return [(Ptr(buf, 0) if k else NULL, 8), (Ptr(buf, nbytes) if k else NULL, 8), (Ptr(buf, nbytes) if k else NULL, 8)]
+    cells = {0: (Ptr(vt.obj, 16), 8), 8: (Ptr('rb', 0), 8), 16: (Ptr('ctrl', 0), 8), fo[1]: (BV(8), 8), fo[1] + 8: (z3.FPVal(1.5, z3.Float64()), 8),
+             fo[6]: (NULL, 8), fo[7]: (BV(length), 8), fo[8]: (z3.BitVecVal(1, 8), 1), fo[9]: (BV(-1), 8), fo[10]: (BV(nexttotry), 8), fo[11]: (BV(k), 8)}
+    for base, (buf, per) in ((fo[2], ('kidsbuf', 16)), (fo[3], ('keysbuf', 32)), (fo[4], ('ptrsbuf', 8))):
+        for j, c in enumerate(vec(buf, per * k)):
+            cells[base + 8 * j] = c
+    _string_cells(cells, fo[5], 'rb', '')
+    this = m.record('rb', cells)
+    m.record('ret', {})
+    out = m.call('_ZN7awkward13RecordBuilder11field_checkEPKc', [Ptr('ret', 0), this, keyp])
+    obls = [('field does not raise in an open record', out.raised)]
+    o = out.mem.o['rb']
+
+    def vec_items(base, per):
+        b, e = o.cells[base][0], o.cells[base + 8][0]
+        bc = [q for g, q in ptr_cases(b) if q.obj is not None]
+        ec = [q for g, q in ptr_cases(e) if q.obj is not None]
+        if not bc:
+            return []
+        if len(bc) != 1 or len(ec) != 1 or bc[0].obj != ec[0].obj:
+            raise Unsupported('a vector of the builder is not a single buffer after the step')
+        return [(bc[0].obj, bc[0].off + per * i) for i in range((ec[0].off - bc[0].off) // per)]
+    kids1, keys1 = vec_items(fo[2], 16), vec_items(fo[3], 32)
+    got_names = [_read_string(out.mem, Ptr(ob, off)) for ob, off in keys1]
+    ni, nt, ks = o.cells[fo[9]][0], o.cells[fo[10]][0], o.cells[fo[11]][0]
+    if key in names:
+        j = names.index(key)
+        obls += [('a known key selects its field', ni != j), ('the search cursor moves behind it', nt != j + 1), ('nothing is added', z3.BoolVal(len(kids1) != k or got_names != list(names))),
+                 ('the number of keys is unchanged', ks != k)]
+    else:
+        obls += [('a new key becomes the last field and is selected', ni != k), ('the search cursor is reset', nt != 0), ('the number of keys grows by one', ks != k + 1),
+                 ('the keys are the old ones followed by the new one (%s)' % got_names, z3.BoolVal(got_names != list(names) + [key])),
+                 ('one field builder is added', z3.BoolVal(len(kids1) != k + 1))]
+        if len(kids1) == k + 1:
+            for i in range(k):
+                pi = out.mem.o[kids1[i][0]].cells[kids1[i][1]][0]
+                obls.append(('field builder %d stays in place' % i, z3.Not(z3.Or([g for g, q in ptr_cases(pi) if q.obj == 'kid%d' % i] + [z3.BoolVal(False)]))))
+            pn = out.mem.o[kids1[k][0]].cells[kids1[k][1]][0]
+            cs = [(g, q) for g, q in ptr_cases(pn) if q.obj is not None]
+            if len(cs) != 1:
+                raise Unsupported('new field builder pointer has %d cases' % len(cs))
+            nb, nbase = out.mem.o[cs[0][1].obj], cs[0][1].off
+            vp = nb.cells[nbase][0]
+            cls = str([q.obj for g, q in ptr_cases(vp) if q.obj is not None][0])
+            if length == 0:
+                obls.append(('with no closed record the new field starts as an empty builder of unknown type', z3.BoolVal('UnknownBuilder' not in cls)))
+            else:
+                obmod = module_of(OB)
+                fob = obmod.types.struct_layout(struct_of(obmod, '_ZN7awkward13OptionBuilder4nullEv'))[0]
+                if 'OptionBuilder' not in cls:
+                    obls.append(('the new field is option-type', z3.BoolVal(True)))
+                else:
+                    bp, ln = nb.cells[nbase + fob[2] + 16][0], nb.cells[nbase + fob[2] + 32][0]
+                    obls.append(('the new field holds one entry per closed record', ln != length))
+                    bcs = [(g, q) for g, q in ptr_cases(bp) if q.obj is not None]
+                    for i in range(length):
+                        v = None
+                        for g, q in bcs:
+                            e = z3.Select(out.mem.o[q.obj].arr, z3.simplify(q.off + i))
+                            v = e if v is None else z3.If(g, e, v)
+                        obls.append(('entry %d of the new field is None' % i, v != -1))
+
+    def replay(model, ent_):
+        import subprocess, os
+        drv = NATIVE_PREFIX + r'''
+int main(int argc, char** argv) {
+  // argv: key nexttotry length k names...
+  const char* key = argv[1]; long long nt = atoll(argv[2]), L = atoll(argv[3]); int k = atoi(argv[4]);
+  ArrayBuilderOptions opts(8, 1.5);
+  std::vector<BuilderPtr> kids; std::vector<std::string> keys; std::vector<const char*> ptrs;
+  for (int i = 0; i < k; i++) { kids.push_back(std::make_shared<Count>(L)); keys.push_back(argv[5 + i]); ptrs.push_back(nullptr); }
+  std::shared_ptr<RecordBuilder> rb = std::make_shared<RecordBuilder>(opts, kids, keys, ptrs, "", nullptr, L, true, -1, nt);
+  int bad = 0, known = -1;
+  for (int i = 0; i < k; i++) if (keys[i] == key && known < 0) known = i;
+  try { rb->field_check(key); } catch (std::exception& e) { bad |= 1; }
+  if (!bad) {
+    if (known >= 0) { if (rb->nextindex_ != known || rb->nexttotry_ != known + 1 || (int)rb->contents_.size() != k || (int)rb->keys_.size() != k) bad |= 2; }
+    else {
+      if (rb->nextindex_ != k || rb->nexttotry_ != 0 || (int)rb->contents_.size() != k + 1 || (int)rb->keys_.size() != k + 1 || rb->keys_size_ != k + 1) bad |= 4;
+      else { if (rb->keys_[k] != key) bad |= 8; if (rb->contents_[k]->length() != L) bad |= 16; for (int i = 0; i < k; i++) if (rb->keys_[i] != argv[5 + i]) bad |= 32; }
+    }
+  }
+  printf("bad=%d\n", bad);
+  return bad ? 1 : 0;
+}
+'''
+        try:
+            exe = fullnative_link(drv)
+        except Exception as e:      # noqa
+            return False, 'replay driver did not build: %s' % str(e)[-600:], {}
+        r = subprocess.run([exe, key, str(nexttotry), str(length), str(k)] + list(names), capture_output=True, text=True, timeout=30,
+                           env=dict(os.environ, ASAN_OPTIONS='detect_leaks=0', UBSAN_OPTIONS='halt_on_error=1:exitcode=87'), errors='replace')
+        payload = dict(names=list(names), key=key, nexttotry=nexttotry, length=length, native=r.stdout.strip())
+        if r.returncode != 0:
+            return True, 'record type %s (%d closed records, cursor %d), field("%s"): native builder gives %s %s' % (list(names), length, nexttotry, key, r.stdout.strip(), r.stderr[-200:] if not r.stdout.strip() else ''), payload
+        return False, 'native builder agrees (%s)' % r.stdout.strip(), payload
+    return mdischarge(m, 'RecordBuilder%s::field("%s") cursor=%d records=%d' % (list(names), key, nexttotry, length), obls, [], replay=replay,
+                      extra=dict(bounds='field names, key, cursor position and number of closed records concrete (case split)'))
+
+
+_jobs_begintuple = jobs
+
+
+def jobs(tier):
+    q = [(('x', 'y'), 'y', 0, 0), (('x', 'y'), 'x', 2, 2), (('x', 'y'), 'z', 1, 2), ((), 'a', 0, 0), (('a',), 'b', 1, 0)]
+    if tier != 'quick':
+        q += [(('a', 'b', 'c'), 'a', 1, 1), (('a', 'b', 'c'), 'c', 3, 0), (('a', 'b', 'c'), 'd', 2, 3), (('ab', 'a'), 'a', 0, 1), ((), 'k', 0, 2)]
+    return _jobs_begintuple(tier) + [(h_record_field, a, 900) for a in q]
